@@ -826,3 +826,65 @@ def rule_tx_refuse_pure(ctx, R):
                 R.finding(fn, "refusal-after-state-write",
                           "%s can write the connection's transaction state (line %d) and then answer an error (line %d): the refused command is not without effect -- a nested MULTI that is refused must leave the queued commands alone" % (fn.split("::")[-1], b.bb_line(before[0]), b.bb_line(e)), b.loc(e))
     R.floor("control_handler_refusals", n)
+
+
+# ---- R-WATCH-DB -----------------------------------------------------------------------------------
+_WATCH_CONSUMERS = re.compile(r"^storage::engine::StorageEngine::(was_modified_since|unregister_watch)$")
+
+
+def rule_watch_db(ctx, R):
+    """a watch belongs to the database the key was in when WATCH ran: the check at EXEC and the
+    unregistration at UNWATCH use the database stored WITH the watched key, not the connection's
+    current selection (SELECT between WATCH and EXEC would check -- and un-count -- the same key
+    name in another database).  At every call of was_modified_since / unregister_watch whose key
+    comes out of the watch set, the database operand comes out of the same record."""
+    n = 0
+    for fn, b in sorted(ctx.prog.bodies.items()):
+        if not fn.startswith(("network::", "storage::commands::")) or "::tests::" in fn:
+            continue
+        for i, t in b.calls():
+            if not _WATCH_CONSUMERS.match(callee(t)) or b.bbs[i]["cleanup"] or len(t["a"]) < 3:
+                continue
+            K = prov.operand_origins(b, t["a"][2], deep=True)
+            recs = {r[2] for r in K.roots if r[0] == "call" and re.search(r"Iterator>::next$", r[1])} | {bb for c, bb in K.via if re.search(r"Iterator>::next$", c)}
+            if not recs:
+                continue          # the key does not come out of an iteration over the watch set
+            n += 1
+            D = prov.operand_origins(b, t["a"][1], deep=True)
+            drecs = {r[2] for r in D.roots if r[0] == "call" and re.search(r"Iterator>::next$", r[1])} | {bb for c, bb in D.via if re.search(r"Iterator>::next$", c)}
+            ok = bool(recs & drecs)
+            R.inst(fn, "watch-consumer:%s" % callee(t).split("::")[-1], {"function": fn, "at": b.loc(i), "database_from_the_watch_record": ok})
+            if not ok:
+                R.finding(fn, "watch-db:%s:not-from-the-watch-record" % callee(t).split("::")[-1],
+                          "%s takes the key from the watch set but the database from elsewhere (line %d): the watch set does not remember the database a key was watched in, so after SELECT the check / unregistration addresses the same key name in another database (WATCH k in db 0; SELECT 1; another client SET k in db 0; EXEC runs)" % (fn.split("::")[-1], b.bb_line(i)), b.loc(i))
+    R.floor("watch_set_consumers", n)
+
+
+def rule_rewatch(ctx, R):
+    """WATCH of a key that is already watched keeps the first baseline: the insertion into the
+    watch set does not overwrite (entry API / `contains_key` test), otherwise a change made between
+    the two WATCH calls is forgotten."""
+    n = 0
+    for fn, b in sorted(ctx.prog.bodies.items()):
+        if not fn.startswith(("network::", "storage::commands::")) or "::tests::" in fn:
+            continue
+        regs = [i for i, t in b.calls() if callee(t) == "storage::engine::StorageEngine::register_watch"]
+        if not regs:
+            continue
+        for i, t in b.calls():
+            f = t["f"] or ""
+            if b.bbs[i]["cleanup"] or not re.search(r"HashMap::<.*>::insert$", f) or not t["a"] or op_is_const(t["a"][0]):
+                continue
+            P = prov.operand_origins(b, t["a"][0])
+            if not any(x.endswith("TransactionState.watched_keys") for x in P.fields):
+                continue
+            n += 1
+            guarded = False
+            for j, tt in b.calls():
+                if re.search(r"HashMap::<.*>::contains_key(::<.*>)?$", tt["f"] or "") and tt["a"] and not op_is_const(tt["a"][0]) and any(x.endswith("TransactionState.watched_keys") for x in prov.operand_origins(b, tt["a"][0]).fields) and cfg.dominates(b, j, i):
+                    guarded = True
+            R.inst(fn, "watch-insert", {"function": fn, "at": b.loc(i), "under_a_not_yet_watched_test": guarded})
+            if not guarded:
+                R.finding(fn, "watch-insert:overwrites-baseline",
+                          "%s stores the baseline of a watched key with HashMap::insert (line %d) and no `already watched` test: a second WATCH of the same key replaces the first baseline, so a modification made between the two is forgotten (WATCH k; another client SET k; WATCH k; MULTI; EXEC runs)" % (fn.split("::")[-1], b.bb_line(i)), b.loc(i))
+    R.floor("watch_set_insertions", n)
